@@ -18,6 +18,8 @@ func checkC08(c *chk.Ctx) {
 	h := newH(c)
 	c.Decided = []string{
 		"R08a LEADER check, offset allocation and WAL append happen in one exclusive critical section of the controller lock",
+		"R08i a request popped from the commit queue is always completed successfully (the commit no longer depends on the caller)",
+		"R08j the already-committed test and the enqueue of a commit waiter are one critical section of the tracker mutex",
 		"R08h the WAL sync loop completes only the sync requests received before it read the appended offset (a write's local-durability completion is never ahead of LastOffset())",
 		"R08b the WAL appends to a segment only after the contiguity check of the entry's offset succeeded",
 		"R08c the apply function answers every request element exactly once, in element order, with the result of that very element; the client callback gets the response of its own request and offset",
@@ -39,6 +41,8 @@ func checkC08(c *chk.Ctx) {
 	h.Rule("R08g", "K11", "quorum arithmetic (shared with R01c)", 3)
 	ruleR01cShared(h, "R08g")
 	ruleSyncCompletionsCovered(h, "R08h")
+	ruleCommittedContinuationsSucceed(h, "R08i")
+	ruleCommitCheckUnderLock(h, "R08j")
 }
 
 // ruleR01cShared re-evaluates the quorum arithmetic under another rule id.
